@@ -8,6 +8,7 @@ from tree_sitter import Language, Node, Parser
 from nix_manipulator.expressions.path import source_path_context
 from nix_manipulator.expressions.raw import RawExpression
 from nix_manipulator.expressions.source_code import NixSourceCode
+from nix_manipulator._verif_hooks import emit as _verif_emit
 
 
 def _capsule_from_pointer(ptr: int) -> object:
@@ -39,6 +40,7 @@ def _get_parser() -> Parser:
     if parser is None:
         parser = Parser(NIX_LANGUAGE)
         _PARSER_LOCAL.parser = parser
+    _verif_emit("parser_get", parser=id(parser))
     return parser
 
 
@@ -49,6 +51,7 @@ def parse_to_ast(source_code: bytes | str) -> Node:
     )
     parser = _get_parser()
     tree = parser.parse(code_bytes)
+    _verif_emit("parser_done", parser=id(parser))
     return tree.root_node
 
 
